@@ -1078,15 +1078,7 @@ func twccExtensionCall(p *Prog, call ssa.CallInstruction) bool {
 		if g == nil || !p.InUniverse(g) || !usesURI(g) {
 			return false
 		}
-		for _, b := range g.Blocks {
-			if ret, ok := b.Instrs[len(b.Instrs)-1].(*ssa.Return); ok {
-				for _, r := range ret.Results {
-					if p.backwardReaches(r, isIDField) {
-						okHelper = true
-					}
-				}
-			}
-		}
+		okHelper = twccHelperReturnsID(p, g, isIDField)
 		return okHelper
 	})
 	return okHelper
@@ -1117,6 +1109,64 @@ func twccUsesURI(fn *ssa.Function) bool {
 		}
 	})
 	return found
+}
+
+// twccHelperReturnsID: every return of the helper yields the ID field of an extension of the StreamInfo it was given, or
+// the constant 0 (not found) — not a value remembered from another stream (an id cached on the interceptor).
+func twccHelperReturnsID(p *Prog, g *ssa.Function, isIDField func(ssa.Value) bool) bool {
+	some := false
+	for _, b := range g.Blocks {
+		ret, isR := b.Instrs[len(b.Instrs)-1].(*ssa.Return)
+		if !isR || b == g.Recover {
+			continue
+		}
+		for _, r := range ret.Results {
+			var check func(v ssa.Value, d int) bool
+			check = func(v ssa.Value, d int) bool {
+				v = p.origin(v)
+				if c, ok := v.(*ssa.Const); ok {
+					k, isInt := constInt(c)
+					return isInt && k == 0
+				}
+				if ph, ok := v.(*ssa.Phi); ok && d < 6 {
+					for _, e := range ph.Edges {
+						if !check(e, d+1) {
+							return false
+						}
+					}
+					return true
+				}
+				if cv, ok := v.(*ssa.Convert); ok && d < 6 {
+					return check(cv.X, d+1)
+				}
+				if isIDField(v) || p.backwardReaches(v, isIDField) {
+					// must not also depend on state of the receiver (a cached id merged in)
+					var recv ssa.Value
+					if g.Signature.Recv() != nil && len(g.Params) > 0 {
+						recv = g.Params[0]
+					}
+					dependsOnCall := recv != nil && p.backwardReaches(v, func(x ssa.Value) bool {
+						switch y := x.(type) {
+						case *ssa.Call:
+							return len(y.Call.Args) > 0 && p.origin(addrRoot(y.Call.Args[0])) == recv
+						case *ssa.UnOp:
+							return y.Op == token.MUL && p.origin(addrRoot(y.X)) == recv
+						}
+						return false
+					})
+					if !dependsOnCall {
+						some = true
+						return true
+					}
+				}
+				return false
+			}
+			if !check(r, 0) {
+				return false
+			}
+		}
+	}
+	return some
 }
 
 // twccIDValue: v (in function fn) is the negotiated transport-wide-CC extension id: read from RTPHeaderExtension.ID in
@@ -1155,15 +1205,7 @@ func twccIDValueD(p *Prog, v ssa.Value, fn *ssa.Function, isIDField func(ssa.Val
 		if g == nil || !p.InUniverse(g) || !usesURI(g) {
 			return false
 		}
-		for _, b := range g.Blocks {
-			if ret, isR := b.Instrs[len(b.Instrs)-1].(*ssa.Return); isR {
-				for _, r := range ret.Results {
-					if p.backwardReaches(r, isIDField) {
-						ok = true
-					}
-				}
-			}
-		}
+		ok = twccHelperReturnsID(p, g, isIDField)
 		return ok
 	})
 	return ok
